@@ -95,7 +95,8 @@ def r3(ctx):
             ctx.check('deserialize|%s->%s|needs-new-decrypt' % (conds[falses.index(f)], site_desc(b, s)), must_pass_block_from(b, f.bb, s.bb, [d.bb]),
                       'after a failed authentication fields can be promoted without another successful decrypt', s.where())
     lit = one(b.aggregates(r'DeserializedExtensionField$'), 'Ok literal')
-    ctx.guard(b, lit, 'valid', lambda f: f.kind == 'bool' and f.pol and tstr(f.term).startswith('is_valid_nts'), key='deserialize|Ok|valid')
+    fl = one(sorted(set(flag_locals(b).values())), 'the validity flag of ExtensionFieldData::deserialize')
+    ctx.guard(b, lit, 'valid', lambda f: f.kind == 'bool' and f.pol and re.match(r'^%s\b' % re.escape(fl), tstr(f.term)) is not None, key='deserialize|Ok|valid')
 
 
 def r4(ctx):
